@@ -1922,6 +1922,8 @@ func (vm *VM) execAsync() error {
 		builtinsCopy[k] = v
 	}
 
+	maxSteps := vm.maxSteps
+
 	go func() {
 		defer close(future.Done)
 		defer func() {
@@ -1932,6 +1934,10 @@ func (vm *VM) execAsync() error {
 
 		// Create a new VM for the async execution
 		asyncVM := NewVM()
+		// The block inherits the step limit of the VM that spawned it: a fresh VM
+		// has none, and an async body that never terminates kept spinning in its
+		// goroutine long after the request had been answered or aborted.
+		asyncVM.maxSteps = maxSteps
 		asyncVM.constants = constantsCopy
 		asyncVM.locals = localsCopy
 		asyncVM.globals = globalsCopy
